@@ -20,13 +20,13 @@ namespace Ipv8.C20
 
 /-- Python exceptions that the modelled code can raise (kind only) -/
 inductive Err
-  | keyError | indexError | typeError | attributeError | nameError | compileError | notImplemented
+  | keyError | indexError | typeError | attributeError | nameError | compileError | notImplemented | packError
 deriving Repr, DecidableEq, Inhabited
 
 def Err.name : Err → String
   | .keyError => "KeyError" | .indexError => "IndexError" | .typeError => "TypeError"
   | .attributeError => "AttributeError" | .nameError => "NameError" | .compileError => "CompileError"
-  | .notImplemented => "NotImplementedError"
+  | .notImplemented => "NotImplementedError" | .packError => "PackError"
 
 /-- one entry of `format_list`: a registered format name, a nested Serializable class, or `[cls]` -/
 inductive Fmt
@@ -339,12 +339,15 @@ structure Compiled (V : Type) where
 
 def hasKey {β : Type} (l : List (String × β)) (n : String) : Bool := (alookup l n).isSome
 
+/-- the defaults `inspect.signature(cls.__init__)` shows: none for VariablePayload.__init__(self, *args, **kwargs) -/
+def PDef.sigDefaults {V : Type} (d : PDef V) : KW V :=
+  match d.userInit with
+  | none => []
+  | some _ => d.defaults
+
 /-- `vp_compile(cls)`: defaults are read from the signature of the class's current `__init__` -/
 def vpCompile {V : Type} (splice : V → Option V) (d : PDef V) : Except Err (Compiled V) :=
-  let defaults := match d.userInit with
-    | none => []
-    | some _ => d.defaults
-  match compileInit splice d.names defaults with
+  match compileInit splice d.names d.sigDefaults with
   | .error e => .error e
   | .ok gi =>
     match compilePack d.fmts d.names (hasKey d.fixPack) with
@@ -506,6 +509,31 @@ def dataclassUnpack {V : Type} (splice : V → Option V) (isNone : V → Bool) (
   | .error e => .error e
   | .ok d => compiledUnpack splice isNone d args
 
+/-! ### shipped definitions (pure data, regenerated into Gen.lean) -/
+
+/-- class data of a shipped VariablePayload definition -/
+structure SDef where
+  name : String
+  fmts : List Fmt
+  names : List String
+  userInit : Option Bool
+  defaults : List String
+  fixPack : List String
+  fixUnpack : List String
+deriving Repr, DecidableEq
+
+/-- the definition it denotes, for any value type, default values `dv` and hook functions `hp`/`hu` -/
+def SDef.toPDef {V : Type} (s : SDef) (dv : String → V) (hp hu : String → V → V) : PDef V :=
+  { fmts := s.fmts, names := s.names, userInit := s.userInit,
+    defaults := s.defaults.map (fun n => (n, dv n)),
+    fixPack := s.fixPack.map (fun n => (n, hp n)),
+    fixUnpack := s.fixUnpack.map (fun n => (n, hu n)) }
+
+/-- distinct names, one name per slot, no parameter without default after one with a default -/
+def SDef.wf (s : SDef) : Bool :=
+  decide s.names.Nodup && s.names.length == totalSlots s.fmts &&
+    defaultsOrdered (s.names.map (fun n => (n, if s.defaults.contains n then some () else none)))
+
 /-! ### bytes: `Serializer.pack_serializable` is a fold over the pack list -/
 
 abbrev Bytes := List UInt8
@@ -518,5 +546,25 @@ def packBytes {V : Type} (packer : String → List V → Option Bytes) : PackLis
     | some b => match packBytes packer rest with
       | none => none
       | some r => some (b ++ r)
+
+/-! ### decoding: `Serializer.unpack_serializable` runs the unpackers of `format_list`, then `from_unpack_list` -/
+
+/-- `unpackAll fmts data` stands for the loop over `format_list` that fills `unpack_list` (any exception → PackError);
+    `ful` is the class's `from_unpack_list` -/
+def decodeWith {V : Type} (unpackAll : List Fmt → Bytes → Option (List V)) (fmts : List Fmt)
+    (ful : List V → Except Err (Attrs V)) (data : Bytes) : Except Err (Attrs V) :=
+  match unpackAll fmts data with
+  | none => .error .packError
+  | some vs => ful vs
+
+/-- a dataclass payload class BEFORE its first instantiation: `format_list` and `names` are still the inherited empty
+    lists, `from_unpack_list` is VariablePayload's, and calling the class converts it (`__new__`) and then runs the
+    generated constructor -/
+def dataclassDecodeFirst {V : Type} (unpackAll : List Fmt → Bytes → Option (List V)) (splice : V → Option V)
+    (dd : DDef V) (data : Bytes) : Except Err (Attrs V) :=
+  decodeWith unpackAll []
+    (fun vs => match unpackFix ({ fmts := [], names := [] } : PDef V) vs 0 with
+      | .error e => .error e
+      | .ok as => dataclassInit splice dd as []) data
 
 end Ipv8.C20
